@@ -789,6 +789,20 @@ def directed():
     for v, w in [('1', '1'), ('01', '1'), ('', '1'), ('3', '1'), ('222', '2'), ('2', '222'), ('abc', 'abc'),
                  ('abc', 'ab'), ('ab', 'abc'), ('abc', 'ABC'), ('1.0', '1'), ('a<b', 'a<b'), ('x=1', 'x=1')]:
         out.append(dict(kind='none', value=v, word=w))
+    # different strings that are canonically equivalent (or compatibility twins): they are different strings - the matcher
+    # compares strings, not normal forms
+    for v, w in [('\u212b', '\u00c5'), ('\u2126', '\u03a9'), ('e\u0301', '\u00e9'), ('caf\u00e9', 'cafe\u0301'),
+                 ('\u212a', 'K'), ('\uf900', '\u8c48'), ('A\u030a', '\u00c5'), ('\uff21', 'A'), ('\u00c5ngstr\u00f6m', 'A\u030angstro\u0308m')]:
+        for a, b in ((v, w), (w, v), (v, v)):
+            for op in STR_OPS:
+                out.append(dict(kind='str', op=op, value=a, word=b))
+            out.append(dict(kind='none', value=a, word=b))
+            out.append(dict(kind='or', value=a, alts=[b, 'zz']))
+            out.append(dict(kind='in', value='x' + a + 'y', word=b))
+            for style in ('repr', 'json'):
+                out.append(dict(kind='allin', lst=[a, 'mmx'], items=[b], style=style))
+    out.append(dict(kind='in', value='cafe\u0301', word='e'))
+    out.append(dict(kind='in', value='cafe\u0301', word='\u00e9'))
     # every separator with every family
     extra = []
     for sep in sorted(set(SEPS)):
